@@ -190,6 +190,10 @@ func (c *runCtx) craftedStates(r *c19Repo) []craftState {
 		"dot-path":        {{ID: blob, Path: "./a.txt"}},
 		"dotdot-path":     {{ID: blob, Path: "../out"}},
 		"unsorted":        {{ID: blob, Path: "z"}, {ID: blob, Path: "a.txt"}, {ID: blob, Path: "m"}},
+		"unsorted-dir-2":  {{ID: blob, Path: "dir/z"}, {ID: blob, Path: "dir/c"}},
+		"unsorted-dir-3":  {{ID: blob, Path: "dir/m"}, {ID: blob, Path: "dir/z"}, {ID: blob, Path: "dir/a"}},
+		"unsorted-dir-4":  {{ID: blob, Path: "dir/b"}, {ID: blob, Path: "dir/a"}, {ID: blob, Path: "dir/d"}, {ID: blob, Path: "dir/c"}, {ID: blob, Path: "a.txt"}},
+		"unsorted-last":   {{ID: blob, Path: "a.txt"}, {ID: blob, Path: "dir/x"}, {ID: blob, Path: "dir/b.txt"}},
 		"duplicates":      {{ID: blob, Path: "a.txt"}, {ID: blob, Path: "a.txt"}},
 		"file-and-dir":    {{ID: blob, Path: "a.txt"}, {ID: blob, Path: "a.txt/x"}},
 		"goit-path":       {{ID: blob, Path: ".goit/HEAD"}},
@@ -279,7 +283,7 @@ func (c *runCtx) craftedC19(r *c19Repo, mine func() bool, cmds, modCmds [][]stri
 			return "loaded"
 		})
 		all := append(append([][]string{}, cmds...), modCmds...)
-		all = append(all, []string{"log", "-n", "2"}, []string{"reset", "--mixed", "HEAD@{1}"}, []string{"restore", "."}, []string{"restore", "--staged", "."}, []string{"add", "."}, []string{"rm", "dir"}, []string{"commit", "-m", "after crafted"})
+		all = append(all, []string{"log", "-n", "2"}, []string{"reset", "--mixed", "HEAD@{1}"}, []string{"restore", "."}, []string{"restore", "dir"}, []string{"restore", "--staged", "dir"}, []string{"add", "dir"}, []string{"restore", "--staged", "."}, []string{"add", "."}, []string{"rm", "dir"}, []string{"commit", "-m", "after crafted"})
 		if strings.HasPrefix(st.name, "swapped-pair.") {
 			// every object as a cat-file argument as well: the damaged ones are then decoded directly
 			for _, id := range r.objects {
